@@ -53,18 +53,30 @@ inductive KRow where
   | comment (text : Str)
   /-- a line of blanks -/
   | blank (ws : Str)
-  /-- `Muro;name;area;U;b[;…]` with at most 7 fields -/
+  /-- `Muro;name;area;U;b[;type;orientation;construction…]` (the three further fields are kept when there are at least 8 fields) -/
   | muro (name a u b : Fld) (more : List Fld) (an un bn : Num)
   /-- `Ventana;name;area;U;orientation;frame %[;…]` with at most 10 fields -/
   | ventana (name a u o ff : Fld) (more : List Fld) (an un fn : Num)
+  /-- `Ventana;name;area;U;orientation;frame %;g;unused;unused;permeability;construction[;…]` -/
+  | ventanaLong (name a u o ff g1 g2 g3 g4 cons : Fld) (more : List Fld) (an un fn n1 n2 n3 n4 : Num)
   /-- `PPTT;length;psi;name[;system…]` -/
   | pptt (l psi name : Fld) (more : List Fld) (ln pn : Num)
+  /-- `Coeficiente K…;value[;…]` -/
+  | kline (tail : Str) (pad : Str) (val : Fld) (more : List Fld) (kn : Num)
+  /-- `d…;value[;…]` with `d` one of the digits 0 … 8: a monthly factor -/
+  | hfactor (d : Char) (tail : Str) (pad : Str) (val : Fld) (more : List Fld) (vn : Num)
+  /-- `"window";azimuth;x;Htot;x;x;H3;x[;…]`: a solar-gains line -/
+  | gains (name : Str) (pad : Str) (f1 f2 f3 f4 f5 f6 f7 : Fld) (more : List Fld) (n1 n2 n3 n4 n5 n6 n7 : Num)
 
 def KRow.fields : KRow → List Fld
   | .comment _ | .blank _ => []
   | .muro name a u b more _ _ _ => word "Muro" :: name :: a :: u :: b :: more
   | .ventana name a u o ff more _ _ _ => word "Ventana" :: name :: a :: u :: o :: ff :: more
+  | .ventanaLong name a u o ff g1 g2 g3 g4 cons more _ _ _ _ _ _ _ => word "Ventana" :: name :: a :: u :: o :: ff :: g1 :: g2 :: g3 :: g4 :: cons :: more
   | .pptt l psi name more _ _ => word "PPTT" :: l :: psi :: name :: more
+  | .kline tail pad val more _ => { core := "Coeficiente K".toList ++ tail, padR := pad } :: val :: more
+  | .hfactor d tail pad val more _ => { core := d :: tail, padR := pad } :: val :: more
+  | .gains name pad f1 f2 f3 f4 f5 f6 f7 more _ _ _ _ _ _ _ => { core := '"' :: (name ++ ['"']), padR := pad } :: f1 :: f2 :: f3 :: f4 :: f5 :: f6 :: f7 :: more
 
 def KRow.line : KRow → Str
   | .comment text => '#' :: text
@@ -74,27 +86,49 @@ def KRow.line : KRow → Str
 /-- the last field ends the line without blanks, so that trimming the line changes nothing -/
 def lastTight (fs : List Fld) : Prop := ∃ f, fs.getLast? = some f ∧ f.padR = [] ∧ Clean f.core
 
+/-- every field is well formed and the line they make ends tightly -/
+def fieldsOk (fs : List Fld) : Prop := (∀ f ∈ fs, f.WF ∧ '\n' ∉ f.text) ∧ lastTight fs
+
 def KRow.WF : KRow → Prop
   | .comment text => '\n' ∉ text ∧ (text = [] ∨ ∃ c, text.getLast? = some c ∧ isWs c = false)
   | .blank ws => AllWs ws ∧ '\n' ∉ ws
-  | r@(.muro _ a u b more an un bn) =>
-    (∀ f ∈ r.fields, f.WF ∧ '\n' ∉ f.text) ∧ lastTight r.fields ∧ more.length ≤ 2 ∧
-    commaNum a.core = some an ∧ commaNum u.core = some un ∧ commaNum b.core = some bn
+  | r@(.muro _ a u b _ an un bn) =>
+    fieldsOk r.fields ∧ commaNum a.core = some an ∧ commaNum u.core = some un ∧ commaNum b.core = some bn
   | r@(.ventana _ a u _ ff more an un fn) =>
-    (∀ f ∈ r.fields, f.WF ∧ '\n' ∉ f.text) ∧ lastTight r.fields ∧ more.length ≤ 4 ∧
+    fieldsOk r.fields ∧ more.length ≤ 4 ∧
     commaNum a.core = some an ∧ commaNum u.core = some un ∧ commaNum ff.core = some fn
+  | r@(.ventanaLong _ a u _ ff g1 g2 g3 g4 _ _ an un fn n1 n2 n3 n4) =>
+    fieldsOk r.fields ∧ commaNum a.core = some an ∧ commaNum u.core = some un ∧ commaNum ff.core = some fn ∧
+    commaNum g1.core = some n1 ∧ commaNum g2.core = some n2 ∧ commaNum g3.core = some n3 ∧ commaNum g4.core = some n4
   | r@(.pptt l psi _ _ ln pn) =>
-    (∀ f ∈ r.fields, f.WF ∧ '\n' ∉ f.text) ∧ lastTight r.fields ∧
-    commaNum l.core = some ln ∧ commaNum psi.core = some pn
+    fieldsOk r.fields ∧ commaNum l.core = some ln ∧ commaNum psi.core = some pn
+  | r@(.kline _ _ val _ kn) => fieldsOk r.fields ∧ commaNum val.core = some kn
+  | r@(.hfactor d _ _ val _ vn) => fieldsOk r.fields ∧ d ∈ ['0', '1', '2', '3', '4', '5', '6', '7', '8'] ∧ commaNum val.core = some vn
+  | r@(.gains name _ f1 f2 f3 f4 f5 f6 f7 _ n1 n2 n3 n4 n5 n6 n7) =>
+    fieldsOk r.fields ∧ (∀ c, name.head? = some c → c ≠ '"') ∧ (∀ c, name.getLast? = some c → c ≠ '"') ∧
+    parseF32 f1.core = some n1 ∧ parseF32 f2.core = some n2 ∧ parseF32 f3.core = some n3 ∧ parseF32 f4.core = some n4 ∧
+    parseF32 f5.core = some n5 ∧ parseF32 f6.core = some n6 ∧ parseF32 f7.core = some n7
+
+/-- type, orientation and construction of a `Muro` row, kept when the row has at least 8 fields -/
+def muroExtra : List Fld → Option (Str × Str × Str)
+  | m0 :: m1 :: m2 :: _ => some (m0.core, m1.core, m2.core)
+  | _ => none
 
 /-- what the row adds to the parsed data -/
 def KRow.apply (st : Kyg) : KRow → Kyg
   | .comment _ | .blank _ => st
-  | .muro name _ _ _ _ an un bn => { st with walls := st.walls ++ [{ name := name.core, a := an, u := un, btrx := bn, extra := none }] }
+  | .muro name _ _ _ more an un bn =>
+    { st with walls := st.walls ++ [{ name := name.core, a := an, u := un, btrx := bn, extra := muroExtra more }] }
   | .ventana name _ _ o _ _ an un fn =>
     { st with windows := st.windows ++ [{ name := name.core, orientation := replaceOW o.core, a := an, u := un, ff := fn, extra := none }] }
+  | .ventanaLong name _ _ o _ _ _ _ _ cons _ an un fn n1 n2 n3 n4 =>
+    { st with windows := st.windows ++ [{ name := name.core, orientation := replaceOW o.core, a := an, u := un, ff := fn, extra := some (n1, n2, n3, n4, cons.core) }] }
   | .pptt _ _ name more ln pn =>
     { st with tbs := st.tbs ++ [{ name := name.core, l := ln, psi := pn, sisdim := ((more.head?).map (·.core)).getD [] }] }
+  | .kline _ _ _ _ kn => { st with k := some kn }
+  | .hfactor _ _ _ _ _ vn => { st with hfactors := st.hfactors ++ [vn] }
+  | .gains name _ _ _ _ _ _ _ _ _ n1 _ n3 _ _ n6 _ =>
+    { st with gains := st.gains ++ [{ name := name, azimuth := n1, htot := n3, h3 := n6 }] }
 
 theorem joinWith_head (w : Str) (f : Fld) (t : List Fld) :
     joinWith [';'] (w :: (f :: t).map Fld.text) = w ++ ';' :: joinWith [';'] ((f :: t).map Fld.text) := by
@@ -124,15 +158,14 @@ theorem joinWith_getLast (fs : List Str) (f : Str) (hl : fs.getLast? = some f) (
       rw [List.getLast?_append, this]
       rfl
 
-theorem line_clean (w : String) (hw0 : ∃ c, w.toList.head? = some c ∧ isWs c = false) (f : Fld) (t : List Fld)
-    (hl : lastTight (word w :: f :: t)) : Clean (joinWith [';'] ((word w :: f :: t).map Fld.text)) := by
+theorem line_clean (f0 : Fld) (h0 : f0.padL = []) (c0 : Char) (hc0 : f0.core.head? = some c0) (hws0 : isWs c0 = false) (f : Fld) (t : List Fld)
+    (hl : lastTight (f0 :: f :: t)) : Clean (joinWith [';'] ((f0 :: f :: t).map Fld.text)) := by
   obtain ⟨g, hg, hpad, hclean⟩ := hl
-  obtain ⟨c0, hc0, hws0⟩ := hw0
   constructor
   · refine ⟨c0, ?_, hws0⟩
     rw [List.map_cons, joinWith_head]
-    simp only [word, Fld.text, List.nil_append, List.append_nil]
-    cases hw : w.toList with
+    simp only [Fld.text, h0, List.nil_append]
+    cases hw : f0.core with
     | nil => rw [hw] at hc0; simp at hc0
     | cons a r => rw [hw] at hc0; simpa using hc0
   · obtain ⟨c, hc, hws⟩ := hclean.2
@@ -142,6 +175,11 @@ theorem line_clean (w : String) (hw0 : ∃ c, w.toList.head? = some c ∧ isWs c
     · unfold Fld.text
       rw [hpad, List.append_nil, List.getLast?_append, hc]
       rfl
+
+theorem splitChar_line (fs : List Fld) (hne : fs ≠ []) (hw : ∀ f ∈ fs, f.WF) :
+    splitChar ';' (joinWith [';'] (fs.map Fld.text)) = fs.map Fld.text :=
+  splitChar_fields ';' (fs.map Fld.text) (by simpa using hne)
+    (by intro t ht; obtain ⟨f, hf, rfl⟩ := List.mem_map.mp ht; exact (hw f hf).nosemi)
 
 /-- **one row** of the file, trimmed as `kyg::parse` trims every line, is read as written -/
 theorem kygLine_row (st : Kyg) (r : KRow) (h : r.WF) : kygLine st (trim r.line) = .ok (r.apply st) := by
@@ -165,8 +203,8 @@ theorem kygLine_row (st : Kyg) (r : KRow) (h : r.WF) : kygLine st (trim r.line) 
     unfold kygLine
     simp [startsWith, KRow.apply]
   | muro name a u b more an un bn =>
-    obtain ⟨hf, hl, hm, ha, hu, hb⟩ := h
-    have hclean := line_clean "Muro" ⟨'M', rfl, by decide⟩ name (a :: u :: b :: more) hl
+    obtain ⟨⟨hf, hl⟩, ha, hu, hb⟩ := h
+    have hclean := line_clean (word "Muro") rfl 'M' rfl (by decide) name (a :: u :: b :: more) hl
     have hfields := fields_of_line (word "Muro" :: name :: a :: u :: b :: more) (by simp) (fun f m => (hf f m).1)
     have hline := joinWith_head (word "Muro").text name (a :: u :: b :: more)
     simp only [KRow.line, KRow.fields, trim_clean _ hclean]
@@ -174,12 +212,14 @@ theorem kygLine_row (st : Kyg) (r : KRow) (h : r.WF) : kygLine st (trim r.line) 
     rw [hfields]
     simp only [List.map_cons] at hline ⊢
     rw [hline]
-    have hlen : ¬ (more.length + 5 < 5) := by omega
-    have hlen2 : ¬ (more.length + 5 > 7) := by omega
-    simp [word, Fld.text, startsWith, List.isPrefixOf, nth, ha, hu, hb, hlen2, KRow.apply]
+    match more with
+    | [] => simp [word, Fld.text, startsWith, List.isPrefixOf, nth, ha, hu, hb, KRow.apply, muroExtra]
+    | [m0] => simp [word, Fld.text, startsWith, List.isPrefixOf, nth, ha, hu, hb, KRow.apply, muroExtra]
+    | [m0, m1] => simp [word, Fld.text, startsWith, List.isPrefixOf, nth, ha, hu, hb, KRow.apply, muroExtra]
+    | m0 :: m1 :: m2 :: rest => simp [word, Fld.text, startsWith, List.isPrefixOf, nth, ha, hu, hb, KRow.apply, muroExtra]
   | ventana name a u o ff more an un fn =>
-    obtain ⟨hf, hl, hm, ha, hu, hff⟩ := h
-    have hclean := line_clean "Ventana" ⟨'V', rfl, by decide⟩ name (a :: u :: o :: ff :: more) hl
+    obtain ⟨⟨hf, hl⟩, hm, ha, hu, hff⟩ := h
+    have hclean := line_clean (word "Ventana") rfl 'V' rfl (by decide) name (a :: u :: o :: ff :: more) hl
     have hfields := fields_of_line (word "Ventana" :: name :: a :: u :: o :: ff :: more) (by simp) (fun f m => (hf f m).1)
     have hline := joinWith_head (word "Ventana").text name (a :: u :: o :: ff :: more)
     simp only [KRow.line, KRow.fields, trim_clean _ hclean]
@@ -189,9 +229,21 @@ theorem kygLine_row (st : Kyg) (r : KRow) (h : r.WF) : kygLine st (trim r.line) 
     rw [hline]
     have hlen2 : ¬ (more.length + 6 > 10) := by omega
     simp [word, Fld.text, startsWith, List.isPrefixOf, nth, ha, hu, hff, hlen2, KRow.apply]
+  | ventanaLong name a u o ff g1 g2 g3 g4 cons more an un fn n1 n2 n3 n4 =>
+    obtain ⟨⟨hf, hl⟩, ha, hu, hff, h1, h2, h3, h4⟩ := h
+    have hclean := line_clean (word "Ventana") rfl 'V' rfl (by decide) name (a :: u :: o :: ff :: g1 :: g2 :: g3 :: g4 :: cons :: more) hl
+    have hfields := fields_of_line (word "Ventana" :: name :: a :: u :: o :: ff :: g1 :: g2 :: g3 :: g4 :: cons :: more) (by simp) (fun f m => (hf f m).1)
+    have hline := joinWith_head (word "Ventana").text name (a :: u :: o :: ff :: g1 :: g2 :: g3 :: g4 :: cons :: more)
+    simp only [KRow.line, KRow.fields, trim_clean _ hclean]
+    unfold kygLine
+    rw [hfields]
+    simp only [List.map_cons] at hline ⊢
+    rw [hline]
+    have hlen2 : more.length + 11 > 10 := by omega
+    simp [word, Fld.text, startsWith, List.isPrefixOf, nth, ha, hu, hff, h1, h2, h3, h4, KRow.apply]
   | pptt l psi name more ln pn =>
-    obtain ⟨hf, hl, hln, hpn⟩ := h
-    have hclean := line_clean "PPTT" ⟨'P', rfl, by decide⟩ l (psi :: name :: more) hl
+    obtain ⟨⟨hf, hl⟩, hln, hpn⟩ := h
+    have hclean := line_clean (word "PPTT") rfl 'P' rfl (by decide) l (psi :: name :: more) hl
     have hfields := fields_of_line (word "PPTT" :: l :: psi :: name :: more) (by simp) (fun f m => (hf f m).1)
     have hline := joinWith_head (word "PPTT").text l (psi :: name :: more)
     simp only [KRow.line, KRow.fields, trim_clean _ hclean]
@@ -202,6 +254,54 @@ theorem kygLine_row (st : Kyg) (r : KRow) (h : r.WF) : kygLine st (trim r.line) 
     cases more with
     | nil => simp [word, Fld.text, startsWith, List.isPrefixOf, nth, hln, hpn, KRow.apply]
     | cons m0 mr => simp [word, Fld.text, startsWith, List.isPrefixOf, nth, hln, hpn, KRow.apply]
+  | kline tail pad val more kn =>
+    obtain ⟨⟨hf, hl⟩, hk⟩ := h
+    have hclean := line_clean { core := "Coeficiente K".toList ++ tail, padR := pad } rfl 'C' rfl (by decide) val more hl
+    have hsplit := splitChar_line ({ core := "Coeficiente K".toList ++ tail, padR := pad } :: val :: more) (by simp) (fun f m => (hf f m).1)
+    have hline := joinWith_head ({ core := "Coeficiente K".toList ++ tail, padR := pad } : Fld).text val more
+    have hval : trim (val.padL ++ (val.core ++ val.padR)) = val.core := by
+      have := Fld.trim_text val (hf val (by simp [KRow.fields])).1
+      simpa [Fld.text, List.append_assoc] using this
+    simp only [KRow.line, KRow.fields, trim_clean _ hclean]
+    unfold kygLine
+    rw [hsplit]
+    simp only [List.map_cons] at hline ⊢
+    rw [hline]
+    simp [Fld.text, startsWith, List.isPrefixOf, hval, hk, KRow.apply]
+  | hfactor d tail pad val more vn =>
+    obtain ⟨⟨hf, hl⟩, hd, hv⟩ := h
+    have hdws : isWs d = false := by
+      have := hd
+      simp only [List.mem_cons, List.mem_nil_iff, or_false] at this
+      rcases this with rfl | rfl | rfl | rfl | rfl | rfl | rfl | rfl | rfl <;> decide
+    have hclean := line_clean { core := d :: tail, padR := pad } rfl d rfl hdws val more hl
+    have hsplit := splitChar_line ({ core := d :: tail, padR := pad } :: val :: more) (by simp) (fun f m => (hf f m).1)
+    have hline := joinWith_head ({ core := d :: tail, padR := pad } : Fld).text val more
+    have hval : trim (val.padL ++ (val.core ++ val.padR)) = val.core := by
+      have := Fld.trim_text val (hf val (by simp [KRow.fields])).1
+      simpa [Fld.text, List.append_assoc] using this
+    simp only [KRow.line, KRow.fields, trim_clean _ hclean]
+    unfold kygLine
+    rw [hsplit]
+    simp only [List.map_cons] at hline ⊢
+    rw [hline]
+    have hmem := hd
+    simp only [List.mem_cons, List.mem_nil_iff, or_false] at hmem
+    rcases hmem with rfl | rfl | rfl | rfl | rfl | rfl | rfl | rfl | rfl <;>
+      simp [Fld.text, startsWith, List.isPrefixOf, hval, hv, KRow.apply]
+  | gains name pad f1 f2 f3 f4 f5 f6 f7 more n1 n2 n3 n4 n5 n6 n7 =>
+    obtain ⟨⟨hf, hl⟩, hq1, hq2, h1, h2, h3, h4, h5, h6, h7⟩ := h
+    have hclean := line_clean { core := '"' :: (name ++ ['"']), padR := pad } rfl '"' rfl (by decide) f1 (f2 :: f3 :: f4 :: f5 :: f6 :: f7 :: more) hl
+    have hfields := fields_of_line ({ core := '"' :: (name ++ ['"']), padR := pad } :: f1 :: f2 :: f3 :: f4 :: f5 :: f6 :: f7 :: more) (by simp) (fun f m => (hf f m).1)
+    have hline := joinWith_head ({ core := '"' :: (name ++ ['"']), padR := pad } : Fld).text f1 (f2 :: f3 :: f4 :: f5 :: f6 :: f7 :: more)
+    have hname := trimMatches_quoted name hq1 hq2
+    simp only [KRow.line, KRow.fields, trim_clean _ hclean]
+    unfold kygLine
+    rw [hfields]
+    simp only [List.map_cons] at hline ⊢
+    rw [hline]
+    have hlen : ¬ (more.length + 8 < 8) := by omega
+    simp [Fld.text, startsWith, List.isPrefixOf, nth, h1, h2, h3, h4, h5, h6, h7, hname, KRow.apply]
 
 theorem kygFold_rows (rows : List KRow) (hw : ∀ r ∈ rows, r.WF) (st : Kyg) :
     kygFold st (rows.map (fun r => trim r.line)) = .ok (rows.foldl KRow.apply st) := by
@@ -227,6 +327,12 @@ theorem joinWith_no_nl (fs : List Str) (h : ∀ f ∈ fs, '\n' ∉ f) : '\n' ∉
       · exact ih (fun f hf => h f (by simp [hf])) m
 
 theorem KRow.line_no_nl (r : KRow) (h : r.WF) : '\n' ∉ r.line := by
+  have key : ∀ fs : List Fld, fieldsOk fs → '\n' ∉ joinWith [';'] (fs.map Fld.text) := by
+    intro fs hfs
+    apply joinWith_no_nl
+    intro t ht
+    obtain ⟨f, hf, rfl⟩ := List.mem_map.mp ht
+    exact (hfs.1 f hf).2
   cases r with
   | comment text =>
     intro m
@@ -235,24 +341,17 @@ theorem KRow.line_no_nl (r : KRow) (h : r.WF) : '\n' ∉ r.line := by
     · exact absurd m (by decide)
     · exact hh m
   | blank ws => exact h.2
-  | muro name a u b more an un bn =>
-    apply joinWith_no_nl
-    intro t ht
-    obtain ⟨f, hf, rfl⟩ := List.mem_map.mp ht
-    exact (h.1 f hf).2
-  | ventana name a u o ff more an un fn =>
-    apply joinWith_no_nl
-    intro t ht
-    obtain ⟨f, hf, rfl⟩ := List.mem_map.mp ht
-    exact (h.1 f hf).2
-  | pptt l psi name more ln pn =>
-    apply joinWith_no_nl
-    intro t ht
-    obtain ⟨f, hf, rfl⟩ := List.mem_map.mp ht
-    exact (h.1 f hf).2
+  | muro name a u b more an un bn => exact key _ h.1
+  | ventana name a u o ff more an un fn => exact key _ h.1
+  | ventanaLong name a u o ff g1 g2 g3 g4 cons more an un fn n1 n2 n3 n4 => exact key _ h.1
+  | pptt l psi name more ln pn => exact key _ h.1
+  | kline tail pad val more kn => exact key _ h.1
+  | hfactor d tail pad val more vn => exact key _ h.1
+  | gains name pad f1 f2 f3 f4 f5 f6 f7 more n1 n2 n3 n4 n5 n6 n7 => exact key _ h.1
 
-/-- **KyGananciasSolares.txt, whole file**: comment lines, blank lines and `Muro` / `Ventana` / `PPTT` rows with padded fields, every
-    line CRLF-terminated — `kyg::parse` returns every wall, window and thermal bridge as written, in file order -/
+/-- **KyGananciasSolares.txt, whole file**: comment lines, blank lines, `Muro` / `Ventana` / `PPTT` rows in the short and in the long
+    layout, the `Coeficiente K` line, the monthly factor lines and the solar-gains lines, with padded fields, every line CRLF-terminated —
+    `kyg::parse` returns every wall, window, thermal bridge, factor and gains line as written, in file order -/
 theorem kygParse_file (rows : List KRow) (hw : ∀ r ∈ rows, r.WF) :
     kygParse ((rows.map KRow.line).flatMap (fun b => b ++ ['\r', '\n'])) = .ok (rows.foldl KRow.apply {}) := by
   unfold kygParse
@@ -301,11 +400,33 @@ theorem fldOk_wf (f : Fld) (h : fldOk f = true) : f.WF ∧ '\n' ∉ f.text := by
     rw [h5] at this; exact absurd this (by decide)
 
 example : exVentana.WF := by
-  refine ⟨?_, ?_, by decide, by decide, by decide, by decide⟩
+  refine ⟨⟨?_, ?_⟩, by decide, by decide, by decide, by decide⟩
   · intro f hf
     apply fldOk_wf
     simp only [exVentana, KRow.fields, List.mem_cons, List.mem_nil_iff, or_false] at hf
     rcases hf with rfl | rfl | rfl | rfl | rfl | rfl | rfl | rfl | rfl <;> decide
   · exact ⟨{ core := "1.00".toList }, rfl, rfl, clean_of_cleanB (by decide)⟩
+
+def exMuro : KRow :=
+  .muro { core := "P01_E01_PE001".toList } { core := "19.96".toList } { core := "0.27".toList } { core := "1.00".toList }
+    [{ core := "Fachada".toList }, { core := "S".toList, padR := [' '] }, { core := "Muro Exterior".toList }]
+    (Num.fin false 1996 (-2)) (Num.fin false 27 (-2)) (Num.fin false 100 (-2))
+
+example : String.ofList exMuro.line = "Muro;P01_E01_PE001;19.96;0.27;1.00;Fachada;S ;Muro Exterior" := by decide
+
+example : exMuro.WF := by
+  refine ⟨⟨?_, ?_⟩, by decide, by decide, by decide⟩
+  · intro f hf
+    apply fldOk_wf
+    simp only [KRow.fields, List.mem_cons, List.mem_nil_iff, or_false] at hf
+    rcases hf with rfl | rfl | rfl | rfl | rfl | rfl | rfl | rfl <;> decide
+  · exact ⟨{ core := "Muro Exterior".toList }, rfl, rfl, clean_of_cleanB (by decide)⟩
+
+/-- the remaining line kinds as HULC writes them -/
+example : ((kygLine {} "Coeficiente K = ;0,464".toList).toOption.map (·.k)) = some (some (Num.fin false 464 (-3))) := by decide
+example : ((kygLine {} "8 ; 220.007599".toList).toOption.map (·.hfactors)) = some [Num.fin false 220007599 (-6)] := by decide
+example : ((kygLine {} "\"P02_E01_PE001_V\"; 270.000000; 2.000000; 120642.843750; 113757.890625; 113757.890625; 113757.890625; 102382.109375".toList).toOption.map
+    (fun k => k.gains.map (fun g => (String.ofList g.name, g.azimuth, g.h3)))) =
+    some [("P02_E01_PE001_V", Num.fin false 270000000 (-6), Num.fin false 113757890625 (-6))] := by decide +kernel
 
 end Cte.Props.C18Kyg
